@@ -223,7 +223,7 @@ func rulesC10(c *Ctx) {
 	c10ErrOrigins(c, g)
 	c10LivenessReset(c)
 	c10LivenessRemovedNode(c)
-	c10Round4(c)
+	c10Round4(c, g)
 	c10Support(c)
 
 	// ---- (b) multiplexer
